@@ -220,6 +220,8 @@ HEADER = ("(* GENERATED on every run by vlib/translate.py from the current sourc
 #                                  the definition returns the effects IN PROGRAM ORDER; a pattern may be any statement
 #                                  (a whole `try: x.remove(y) / except ValueError: pass`); a pattern that is a
 #                                  `return <call>` or a `raise ...` ends the path (the function is declared ret="unit")
+#   select   "loop_after_yield": the method is a process body `while True: yield <wait>; <statements>`; the statements
+#            run at each resumption are translated (anything else in the method: Unsupported)
 #   draws    [(python expression, parameter, type, constructor)]
 #                                  `name = <expression>` consuming an outside value (random.uniform(0, 1)): the value
 #                                  is the parameter, the constructor is appended to the effects; at most once per path
@@ -297,8 +299,9 @@ def _is_none_const(e):
 
 
 class FnSpec:
-    def __init__(self, path, cls, method, name, reads=(), effects=(), draws=(), ret="unit", ignore_calls=("print", "dprint")):
-        self.path, self.cls, self.method, self.name = path, cls, method, name
+    def __init__(self, path, cls, method, name, reads=(), effects=(), draws=(), ret="unit", ignore_calls=("print", "dprint"),
+                 select=None):
+        self.path, self.cls, self.method, self.name, self.select = path, cls, method, name, select
         self.reads = [tuple(r) + (("",) if len(r) == 3 else ()) for r in reads]
         self.effects = [tuple(e) + (((),) if len(e) == 3 else ()) for e in effects]
         self.draws, self.ret, self.ignore_calls = list(draws), ret, set(ignore_calls)
@@ -762,7 +765,21 @@ def translate_fn(spec, state, record, prefix, effect_type):
     if f.args.vararg or f.args.kwarg or f.args.kwonlyargs or f.decorator_list or f.args.defaults:
         raise Unsupported(f"{spec.cls}.{spec.method}: signature")
     tr = FxTr(spec, state, record, prefix, effect_type)
-    body = tr.block(list(f.body), tr.env0(), tr.final)
+    stmts = list(f.body)
+    if spec.select == "loop_after_yield":
+        # a process body `while True: yield <wait>; <statements>`: the statements executed at each resumption
+        stmts = [x for x in stmts if not (isinstance(x, ast.Expr) and isinstance(x.value, ast.Constant))]
+        ok = (len(stmts) == 1 and isinstance(stmts[0], ast.While) and isinstance(stmts[0].test, ast.Constant)
+              and stmts[0].test.value is True and not stmts[0].orelse and stmts[0].body
+              and isinstance(stmts[0].body[0], ast.Expr) and isinstance(stmts[0].body[0].value, ast.Yield))
+        if not ok:
+            raise Unsupported(f"{spec.cls}.{spec.method}: not of the shape `while True: yield ...; statements`")
+        stmts = list(stmts[0].body[1:])
+        if any(isinstance(n, (ast.Yield, ast.YieldFrom, ast.Break, ast.Continue, ast.Return)) for x in stmts for n in ast.walk(x)):
+            raise Unsupported(f"{spec.cls}.{spec.method}: yield / break / continue / return inside the sampled statements")
+    elif spec.select is not None:
+        raise Unsupported(f"unknown selection {spec.select}")
+    body = tr.block(stmts, tr.env0(), tr.final)
     ps = (f" (s : {record})" if state else "")
     for (_, p, ty, _) in spec.reads:
         ps += f" ({p} : {COQ_TY[ty]})"
